@@ -275,11 +275,11 @@ func fileValue(ctx context.Context, decoder rel.Tuple, filename string) (rel.Exp
 }
 
 func bytesValue(ctx context.Context, filename string, data []byte) (rel.Expr, error) {
-	compile := func() (rel.Expr, error) {
+	compile := func(ctx context.Context) (rel.Expr, error) {
 		return Compile(ctx, filename, string(data))
 	}
 	if filename != NoPath {
-		return importcache.GetOrAddFromCache(ctx, filename, compile)
+		return importcache.GetOrAddFromCacheCtx(ctx, filename, compile)
 	}
-	return compile()
+	return compile(ctx)
 }
